@@ -16,7 +16,7 @@ def flat_bar(level, vol):
     return (level, level, level, level, vol)
 
 
-def build_ops(name, mode, n, p, ell, zero_volume=False):
+def build_ops(name, mode, n, p, ell, zero_volume=False, reset_after_prefix=False):
     per = specs(name, n)
     mult = F(2) if IND[name]['mult'] else None
     pre = make_stream(mode, p, 'p')
@@ -27,7 +27,7 @@ def build_ops(name, mode, n, p, ell, zero_volume=False):
         flat = [(b[0], b[1], b[2], b[3], F(0)) for b in make_stream('bar', ell, 'z')]
     else:
         flat = [flat_bar(level, z3.Real('fv%d' % i)) for i in range(ell)]
-    ops = [('new', 'a', name, tuple(per), mult)] + [('feed', 'a', v) for v in pre + flat]
+    ops = [('new', 'a', name, tuple(per), mult)] + [('feed', 'a', v) for v in pre] + ([('reset', 'a')] if reset_after_prefix else []) + [('feed', 'a', v) for v in flat]
     assume = stream_assumptions(pre + [f for f in flat if isinstance(f, tuple)], 'validbar' if mode == 'bar' else 'positive')
     assume += [level > 0, level <= R(rcore.BOUND)]
     return ops, assume, per
@@ -35,6 +35,7 @@ def build_ops(name, mode, n, p, ell, zero_volume=False):
 
 def degenerate(name, n, p, i):
     """is step i (0-based over all feeds) one whose reference window lies entirely in the flat stretch?"""
+    if p == 0: return True          # flat from the start (or from a reset): every window so far holds only the flat level
     need = n + (1 if name in LAG1 else 0)
     if name in ('TRUE_RANGE',): need = 2
     if name in ('OBV',): need = 2
@@ -73,10 +74,11 @@ def native_nonfinite(ops_f):
     return None
 
 
-def r_family(mir, name, mode, n, p, ell, seed, to, zero_volume=False):
-    fam = 'R:C08 %s %s n=%d prefix=%d flat=%d%s' % (name, mode, n, p, ell, ' (zero-volume stretch)' if zero_volume else '')
+def r_family(mir, name, mode, n, p, ell, seed, to, zero_volume=False, reset_after_prefix=False):
+    fam = 'R:C08 %s %s n=%d prefix=%d flat=%d%s%s' % (name, mode, n, p, ell, ' (zero-volume stretch)' if zero_volume else '', ' (reset between prefix and flat stretch)' if reset_after_prefix else '')
     role_base = dict(indicator=name, family='flat-window' if not zero_volume else 'zero-volume', periods=specs(name, n))
-    ops, assume, per = build_ops(name, mode, n, p, ell, zero_volume)
+    ops, assume, per = build_ops(name, mode, n, p, ell, zero_volume, reset_after_prefix)
+    p_eff = 0 if reset_after_prefix else p
     b = dict(engine='R', indicator=name, input=mode, periods=per, prefix=p, flat=ell, inputs='symbolic positive prefix, symbolic positive flat level' + (', zero volume' if zero_volume else ''))
     ex = Executor(mir)
     st = rcore.Stats()
@@ -87,15 +89,20 @@ def r_family(mir, name, mode, n, p, ell, seed, to, zero_volume=False):
         inst = RInst.create(ex, name, per, ops[0][4])
         ndiv = 0
         obs = []
-        for i, op in enumerate(ops[1:]):
+        i = -1
+        seen_reset = not reset_after_prefix
+        for op in ops[1:]:
+            if op[0] == 'reset':
+                inst.reset(); i = -1; seen_reset = True; continue
+            i += 1
             try:
                 o = inst.feed(op[2])
             except PathDead as e:
                 dead_at = (i, str(e)); break
             outs.append(o)
-            if degenerate(name, n, p, i) and not zero_volume:
+            if seen_reset and degenerate(name, n, p_eff, i) and not zero_volume:
                 obs += neutral_obs(name, mode, i, o, level)
-            elif zero_volume and i >= p + n and name in ('MFI', 'OBV'):
+            elif zero_volume and i >= p_eff + n and name in ('MFI', 'OBV'):
                 obs += neutral_obs(name, mode, i, o, level)
             # every denominator met so far must be non-zero (else NaN/inf)
             for (pc, den, fn) in ex.divs[ndiv:]:
@@ -118,7 +125,7 @@ def r_family(mir, name, mode, n, p, ell, seed, to, zero_volume=False):
         if nf is None:
             return fam_result(fam, 'R', 'undecided', detail='R reaches a division by zero at step %d (%s) but the native run stays finite' % (dead_at[0] + 1, dead_at[1]), **base)
         return fam_result(fam, 'R', 'violation', role=dict(role_base, kind='non-finite'), replay=nf[2], obligations=1, discharged=0, stats=st.as_dict(),
-                          detail='%s returns %r at step %d of %s (zero denominator on a degenerate window)' % (name, nf[1], nf[0] + 1, [op[2] for op in ops_f[1:]]), **base)
+                          detail='%s returns %r at step %d of %s (zero denominator on a degenerate window)' % (name, nf[1], nf[0] + 1, [op[2] for op in ops_f[1:] if op[0] == 'feed']), **base)
     live = [o for o in obs if is_sym(o.bad) or o.bad is True]
     done = len(obs) - len(live)
     status, detail, replay, role = 'ok', '', None, None
@@ -132,15 +139,16 @@ def r_family(mir, name, mode, n, p, ell, seed, to, zero_volume=False):
         ops_f = rfam.concretize_ops(ops, ms)
         nf = native_nonfinite(ops_f)
         if nf is not None:
-            status, detail, replay, role = 'violation', '%s: native output %r at step %d of %s' % (o.label, nf[1], nf[0] + 1, [op[2] for op in ops_f[1:]]), nf[2], dict(role_base, kind='non-finite')
+            status, detail, replay, role = 'violation', '%s: native output %r at step %d of %s' % (o.label, nf[1], nf[0] + 1, [op[2] for op in ops_f[1:] if op[0] == 'feed']), nf[2], dict(role_base, kind='non-finite')
             break
         # neutral value: confirm natively with the property's own tolerances
         lines, nouts = rfam.run_ops_native(ops_f)
         fo = [x for op, x in zip(ops_f, nouts) if op[0] == 'feed']
-        M = max(abs(x) for op in ops_f[1:] for x in (op[2] if isinstance(op[2], tuple) else (op[2],)))
+        if reset_after_prefix: fo = fo[p:]                    # steps are counted from the reset
+        M = max(abs(x) for op in ops_f[1:] if op[0] == 'feed' for x in (op[2] if isinstance(op[2], tuple) else (op[2],)))
         badn = None
         for i, x in enumerate(fo):
-            if not degenerate(name, n, p, i): continue
+            if not degenerate(name, n, p_eff, i): continue
             t = float(O.tau(i + 1))
             lv = ops_f[-1][2][3] if isinstance(ops_f[-1][2], tuple) else ops_f[-1][2]
             if name in ('FAST_STOCH',) and x[0] != 50.0: badn = (i, x)
@@ -152,7 +160,7 @@ def r_family(mir, name, mode, n, p, ell, seed, to, zero_volume=False):
             elif name in ('MIN', 'MAX') and x[0] != lv: badn = (i, x)
             if badn: break
         if badn:
-            status, detail, replay, role = 'violation', '%s: native output %r at step %d of %s' % (o.label, badn[1], badn[0] + 1, [op[2] for op in ops_f[1:]]), lines, dict(role_base, kind='not-neutral')
+            status, detail, replay, role = 'violation', '%s: native output %r at step %d of %s' % (o.label, badn[1], badn[0] + 1, [op[2] for op in ops_f[1:] if op[0] == 'feed']), lines, dict(role_base, kind='not-neutral')
             break
         status, detail = 'undecided', 'solver model for %s did not reproduce natively' % o.label
     return fam_result(fam, 'R', status, detail=detail, replay=replay, role=role, obligations=len(obs), discharged=done, stats=st.as_dict(),
@@ -172,6 +180,8 @@ def main(chk):
             if IND[name]['np'] == 0 and n > 1: continue
             for p in ((0, n + 1) if q else (0, 1, n + 1)):
                 jobs.append((r_family, (mir, name, mode, n, p, n + 2, chk.seed, to), {}))
+            if name not in ('ER', 'MFI', 'RSI'):
+                jobs.append((r_family, (mir, name, mode, n, n + 2, n + 2, chk.seed, to), {'reset_after_prefix': True}))
         if name in ('MFI', 'OBV'):
             for n in (1, 2, 3):
                 if IND[name]['np'] == 0 and n > 1: continue
